@@ -167,15 +167,11 @@ def finalize(body, term, kinds):
     return body, term
 
 
-def check_C14(chk):
-    thorough = chk.tier == "thorough"
-    rng = random.Random(chk.seed)
-    proof_ok = C.proof_stage(chk, "C14")
-    bins = build_all(chk, ["default", "inprocess"]) if False else build_all(chk, ["default"])
-    if not all(bins.values()):
-        return
+def script_stage(chk, rng, binp, ncases, depth, tag="c14"):
+    """script driver: values whose Serialize implementation interprets a generated program (embedding endpoints, nested sends,
+    failures); returns (cases, got, fails, todo, bad, errors)"""
     cases = []
-    for i in range(5000 if thorough else 300):
+    for i in range(ncases):
         nend, nreg = rng.randint(1, 8), rng.randint(0, 2)
         kinds = "".join(rng.choice("ttr") for _ in range(nend))
         used = set()
@@ -185,7 +181,7 @@ def check_C14(chk):
             pb, pt = gen_body(rng, nend, nreg, 1, used)
             pb, pt = finalize(pb + ",f", pt + "; SFail" if pt else "SFail", kinds)
             pre = (pb, pt)
-        b, t = gen_body(rng, nend, nreg, 5 if thorough else 3, used)
+        b, t = gen_body(rng, nend, nreg, depth, used)
         if rng.random() < 0.3:
             b, t = b + ",f", (t + "; SFail") if t else "SFail"
         b, t = finalize(b, t, kinds)
@@ -195,7 +191,7 @@ def check_C14(chk):
     chunks = [list(range(len(cases)))[i::8] for i in range(8)]
 
     def run(idx):
-        recs, _, rc, err = C.run_harness(bins["default"], "script", [lines[i] for i in idx], shim=False, timeout=600)
+        recs, _, rc, err = C.run_harness(binp, "script", [lines[i] for i in idx], shim=False, timeout=600)
         return {r["id"]: r for r in recs if r.get("kind") == "script"}, err
     got = {}
     with concurrent.futures.ThreadPoolExecutor(max_workers=8) as ex:
@@ -237,8 +233,19 @@ def check_C14(chk):
         chk.failing_input(why, {"serializer_program": c["body"], "endpoint_kinds": c["kinds"], "earlier_failing_send": c["pre"] and c["pre"][0], "observed": r and r["result"]},
                           key="body=%s kinds=%s pre=%s" % (c["body"], c["kinds"], c["pre"] and c["pre"][0]))
     header = "From Coq Require Import List Bool.\nFrom IPC Require Import Codec Tls TlsCheck.\nImport ListNotations.\n"
-    res, errors = C.coq_eval_sharded(header, todo, lambda p: "Eval vm_compute in (%d, %s)." % p, "c14", shard=100)
+    res, errors = C.coq_eval_sharded(header, todo, lambda p: "Eval vm_compute in (%d, %s)." % p, tag, shard=100)
     bad = [(cases[i], got.get(cases[i]["id"])) for i, _ in todo if res.get(i) != "true"]
+    return cases, got, fails, todo, bad, errors
+
+
+def check_C14(chk):
+    thorough = chk.tier == "thorough"
+    rng = random.Random(chk.seed)
+    proof_ok = C.proof_stage(chk, "C14")
+    bins = build_all(chk, ["default", "inprocess"]) if False else build_all(chk, ["default"])
+    if not all(bins.values()):
+        return
+    cases, got, fails, todo, bad, errors = script_stage(chk, rng, bins["default"], 5000 if thorough else 300, 5 if thorough else 3)
     cov = chk.coverage
     cov["evaluations"] = len(cases)
     cov["traces_validated_against_impl"] = len(todo)
